@@ -91,7 +91,7 @@ impl SolverContext for RecCtx {
 }
 
 pub fn meta(rep: &mut Report) {
-    rep.rule = "systems of the C02 family x entry point {init_at(0), init_at(1), init_at(3)} x 0..=2 (quick) / 0..=3 (thorough) unroll() calls on the real UnrollSmtEncoding with a recording SolverContext; (a) the recorded script must be accepted by the strict SMT-LIB reference front end (every symbol declared or defined exactly once before use, every term well-sorted); (b) for every concrete execution of that length (all initial / free states x all input sequences x all values of next-less states) the declared constants are bound to the execution's values and every symbol returned by get_signal_at for states, inputs, constraints and bad states at every step must evaluate to the reference value of that signal in that step; every declared constant must be an input or a legitimately free state. distinct_nontrivial = distinct (system, entry, depth) scripts containing at least one define-fun; states = execution steps evaluated, transitions = signal values compared, traces_validated_against_impl = executions replayed against a recorded script".into();
+    rep.rule = "systems of the C02 family x entry point {init_at(0), init_at(1), init_at(3)} x 0..=2 (quick) / 0..=3 (thorough) unroll() calls (the X-deep systems also init_at(9)+2, init_at(10)+1, init_at(0)+11: two-digit step numbers) on the real UnrollSmtEncoding with a recording SolverContext; (a) the recorded script must be accepted by the strict SMT-LIB reference front end (every symbol declared or defined exactly once before use, every term well-sorted); (b) for every concrete execution of that length (all initial / free states x all input sequences x all values of next-less states) the declared constants are bound to the execution's values and every symbol returned by get_signal_at for states, inputs, constraints and bad states at every step must evaluate to the reference value of that signal in that step; every declared constant must be an input or a legitimately free state. distinct_nontrivial = distinct (system, entry, depth) scripts containing at least one define-fun; states = execution steps evaluated, transitions = signal values compared, traces_validated_against_impl = executions replayed against a recorded script".into();
     rep.assumptions = vec![
         "strictness follows the SMT-LIB 2.6 standard (redeclaring a name is an error even where z3 tolerates it)".into(),
         "at most 4096 executions per (system, entry, depth) are evaluated (reported as a cap when exceeded)".into(),
@@ -307,6 +307,10 @@ pub fn run(opts: &Opts, rep: &Report) {
             for u in 0..=max_unroll {
                 work.push((i, entry, u));
             }
+        }
+        // two-digit step numbers: entry at 9 and 10, and a long unrolling from the initial state
+        if specs[i].name.starts_with("X-deep") {
+            work.extend([(i, 9, 2), (i, 10, 1), (i, 0, 11)]);
         }
     }
     rep.add("cases_enumerated", work.len() as u64);
